@@ -359,13 +359,31 @@ def stream_auth(rng, tier):
     for s in exhaustive("a:@[]1.", k):
         yield "auth u %s" % hx(s)
     U, H, _, _, _ = fam_lists("i")
+    def core(name, lst):
+        # the hand-written entries, everything the dictionary brought that is new, a sample of the rest
+        orig = _ORIG[name] if _ORIG else lst
+        extra = [x for x in lst[len(orig):]]
+        hot = [x for x in extra if x in FRESH][:60]
+        cold = [x for x in extra if x not in FRESH]
+        return list(orig) + hot + cold[::max(1, len(cold) // 12)][:12]
     for f in "ui":
         Uf, Hf, _, _, _ = fam_lists(f)
-        for u in Uf:
-            for h in Hf:
-                for p in PORTS:
+        Uc = core("USERINFOS_I" if f == "i" else "USERINFOS", Uf)
+        Hc = core("HOSTS_I" if f == "i" else "HOSTS", Hf)
+        Pc = core("PORTS", PORTS)
+        for u in Uc:
+            for h in Hc:
+                for p in Pc:
                     yield "auth %s %s" % (f, hx(("" if u is None else u + "@") + h +
                                                 ("" if p is None else ":" + p)))
+        # the rest of the dictionary, one sub-component at a time
+        for u in Uf:
+            yield "auth %s %s" % (f, hx(("" if u is None else u + "@") + "h:1"))
+        for h in Hf:
+            yield "auth %s %s" % (f, hx("u@" + h + ":1"))
+            yield "auth %s %s" % (f, hx(h))
+        for p in PORTS:
+            yield "auth %s %s" % (f, hx("u@h" + ("" if p is None else ":" + p)))
     # characters of every UTF-8 length (2, 3 and 4 bytes) right before and right after each delimiter
     for c in ["\u00e9", "\u20ac", "\U00010000", "\U00020000", "\U0010fffd"]:
         for t in ["u%s@host", "%s@host", "u@%shost", "u@host%s:80", "%s:80", "host%s:80", "u%s:p%s@h%s:1", "u:%s@h", "%s", "%s@", "@%s", "%s:"]:
@@ -566,6 +584,13 @@ def stream_history(rng, tier):
                 if not ops:
                     ops = ["sq:-"]
         yield "hist %s %s %s %s" % (f, t, hx(b), " ".join(ops))
+    # every kind of single edit on the references built around the dictionary
+    for b in dict_focus():
+        for op in DICT_EDITS:
+            for f in "ui":
+                yield "hist %s ref %s %s" % (f, hx(b), op)
+                if op != "ss:" + ohx(None):
+                    yield "hist %s full %s %s" % (f, hx(b), op)
     # default / from_scheme starting points
     for f in "ui":
         for _ in range(200 if tier == "quick" else 5000):
@@ -636,6 +661,19 @@ def stream_pathmut(rng, tier):
                 yield "hist i ref %s pm[norm]" % hx("s:" + p)
         else:
             yield "hist i ref %s pm[norm]" % hx("s://h" + p + "#f")
+    # single and double edits through the path handle on the references built around the dictionary
+    pm_single = ["pop", "push:" + hx("x"), "push:" + hx(""), "spush:" + hx(".."), "norm", "clear", "sapp:" + hx("../../x"), "sapp:" + hx("./")]
+    for b in dict_focus():
+        for o1 in pm_single:
+            for f in "ui":
+                yield "hist %s ref %s pm[%s]" % (f, hx(b), o1)
+            yield "hist u ref %s pm[%s;pop;push:%s]" % (hx(b), o1, hx("c"))
+            yield "hist u ref %s pm[spush:%s;%s]" % (hx(b), hx(".."), o1)
+    for t in [x for x in SEGS if x in FRESH][:40]:
+        for p in [t, t + "/", "a/" + t, "a/" + t + "/", "/" + t + "/", "/" + t + "/b"]:
+            for o1 in pm_single + ["push:" + hx(t), "spush:" + hx(t), "sapp:" + hx(t + "/..")]:
+                yield "hist u path %s pm[%s]" % (hx(p), o1)
+                yield "hist i path %s pm[%s;pop]" % (hx(p), o1)
     # climbing out of a shielded relative path: the `.` shield left behind by a pop is not a segment
     shielded = [".//x", ".//x/y", "./a:b", "./a:b/c", ".//", "./", ".", "./x", "a", "a/b", "..", "../a"]
     climbs = ["..", "../..", "../../..", "../../../z", "../z", "../../z", "../../../..", "./..", "../."]
@@ -941,6 +979,13 @@ def stream_paths(rng, tier):
             for t in "clz":
                 yield "segs u %s %s" % (hx(p), "".join(sched) + t)
                 yield "segs i %s %s" % (hx(p), "".join(sched) + t)
+    # the segments the dictionary newly brought, right next to dot segments
+    for t in [x for x in SEGS if x in FRESH][:60]:
+        for p in [t + "/..", "a/" + t + "/../b", "/" + t + "/..", t + "/./..", t + "/../..", "x/" + t, "/" + t + "/../lib/x", t + "/", "/a/" + t + "/",
+                  t, "../" + t, t + "/.", "/x/" + t + "/./../y"]:
+            for f in "ui":
+                yield "pathq %s %s" % (f, hx(p))
+                yield "segs %s %s fbfb" % (f, hx(p))
     # escaped dots are ordinary segments, also right next to literal dot segments
     dotty = ["a", "%2E%2E", "%2e", "..", ".", ""]
     for n in (1, 2, 3, 4):
@@ -1191,6 +1236,14 @@ def stream_convert(rng, tier):
             yield "cmp i %s %s %s" % (kind, hx(x), hx(y))
     opp = [("a:b?x#2", "a:b?y#1"), ("s://h/p#b", "s://h/p?q#a"), ("s://g/b", "s://h/a"), ("s://h:2/a", "s://h:1/b"),
            ("s://u@h/b", "s://v@h/a"), ("a://z", "b://y"), ("s://h/a?2", "s://h/b?1"), ("s:a#2", "s:b#1"), ("s://g?2", "s://h?1")]
+    # relativisation, suffix and resolution on the references built around the dictionary, both families
+    foc = dict_focus(16)
+    for i, a in enumerate(foc):
+        for b in foc[max(0, i - 3):i + 4] + [a.split("#")[0].split("?")[0] + "/x/y"]:
+            for f in "ui":
+                yield "relto %s %s %s" % (f, hx(a), hx(b))
+                yield "suffix %s full %s %s" % (f, hx(a), hx(b))
+                yield "resolve %s %s %s" % (f, hx(a), hx(b))
     # every single edit of the authority handle, empty values included, in both families
     for ab in ["s://h", "s://h/p", "s://u@h:1/p?q#f", "s://h:", "s://@h", "//h"]:
         for o1 in ["ui:" + ohx(v) for v in [None, "", "u", "u:p"]] + ["host:" + hx(v) for v in ["", "h", "[::1]"]] + \
@@ -1461,7 +1514,12 @@ def set_dictionary(tokens, baseline=(), cap=48):
     """`baseline`: the literals of the tree the machinery was written against (dict_baseline.json);
     a literal that is not in it is new in the tree under test and is never dropped by the caps"""
     global _ORIG
-    baseline = set(baseline)
+    # entries are typed (`s:` string, `c:` character, `n:` number literal): `!` as a string is new even
+    # if `'!'` was there before
+    typed_base = set(baseline)
+    new_typed = [t for t in tokens if t not in typed_base]
+    tokens = [t[2:] for t in tokens]
+    baseline = set(t[2:] for t in typed_base) - set(t[2:] for t in new_typed)
     g = globals()
     if _ORIG is None:
         _ORIG = {n: list(g[n]) for n in DICT_LISTS}
@@ -1482,6 +1540,13 @@ def set_dictionary(tokens, baseline=(), cap=48):
         if st:
             pieces.add(st)
     new_raw = set(t for t in raw if t not in baseline)
+    # two new values often have to meet in one component (`.jar` + `!`): their concatenations
+    fresh_list = sorted(new_raw, key=lambda x: (len(x), x))[:12]
+    for x in fresh_list:
+        for y in fresh_list:
+            if x != y and len(x) + len(y) <= 24:
+                raw.add(x + y)
+                new_raw.add(x + y)
     new_pieces = set()
     for t in new_raw:
         for part in re.split(r"[:/?#@;=!,&]+", t):
@@ -1563,7 +1628,8 @@ def dict_refs():
     for t in DICT_REFS:
         out.append(t)
     for sc in POLICY_SCHEMES:
-        for tail in ["", "a", "/a/b", "//h/a/b?q#f", "//", "//h", "///a", "?q", "#f", "a/./b/../c", "//u@h:80/./a/../b"]:
+        for tail in ["", "a", "/a/b", "//h/a/b?q#f", "//", "//h", "///a", "?q", "#f", "a/./b/../c", "//u@h:80/./a/../b",
+                     "a:b", "1:b/c", ":x", "a%20b:c", "x/../a:b"]:
             out.append(sc + ":" + tail)
     fsch = [x for x in SCHEMES if x in FRESH][:12] + ["s"]
     fseg = [x for x in SEGS if x in FRESH][:40]
@@ -1591,6 +1657,23 @@ def dict_refs():
             seen.add(r)
             res.append(r)
     return res
+
+
+def dict_focus(limit=24):
+    """the dictionary references that involve a value new against the baseline (all of them); on the
+    unchanged tree a small even sample, so that the quick tier stays quick"""
+    refs = dict_refs()
+    if FRESH:
+        hot = [r for r in refs if any(v in r for v in FRESH if len(v) > 1 or v in r.split(":")[0])]
+        return hot[:4000]
+    return refs[::max(1, len(refs) // limit)][:limit]
+
+
+DICT_EDITS = ["ss:" + ohx(None), "ss:" + hx("s"), "sa:" + ohx(None), "sa:" + hx("h"), "sp:" + hx("a:b"), "sp:" + hx("/x"), "sp:" + hx(""),
+              "sq:" + ohx(None), "sq:" + hx("q"), "sf:" + ohx(None), "sf:" + hx("f"),
+              "pm[pop]", "pm[push:%s]" % hx("x"), "pm[push:%s]" % hx(""), "pm[spush:%s]" % hx(".."), "pm[norm]", "pm[clear]",
+              "pm[pop;push:%s]" % hx("x"), "pm[spush:%s;pop;push:%s]" % (hx(".."), hx("c")), "pm[sapp:%s]" % hx("../../x"),
+              "am[port:%s]" % hx("1"), "am[port:%s]" % ohx(None), "am[host:%s]" % hx("h"), "am[ui:%s]" % hx("u")]
 
 
 STREAMS = {
